@@ -28,3 +28,80 @@ def check_repo_origin(mod):
     f = os.path.abspath(getattr(mod, '__file__', '') or '')
     if not f.startswith(os.path.abspath(REPO_ROOT) + os.sep):
         raise RuntimeError('module %s loaded from %s, not from %s' % (mod.__name__, f, REPO_ROOT))
+
+
+# ---------------------------------------------------------------------------------------------------------------
+# Byte accounting for the stream decoder, independent of its internal layout.  The engines used to read
+# `len(unpacker.buf)`; a behaviour-preserving rewrite of the decoder's internals (a read offset, a deque of chunks …)
+# would then be reported as a difference although no property is affected.  Instead the harness counts, per Unpacker
+# instance, the bytes fed and the bytes of the frames it has yielded (5 + len(body) each): `unconsumed(u)` is what a
+# correct decoder must still be holding (C07.consumed).  `footprint(u)` is what it really holds (every bytes-like
+# attribute), for the two clauses that ARE about the buffer: C06 "only the bytes of a trailing incomplete frame
+# remain buffered" and C07 "never buffers more than one maximal frame plus one chunk".
+def _instrument_unpacker():
+    import hpfeeds.protocol as P
+    check_repo_origin(P)
+    U = P.Unpacker
+    if getattr(U, '_verif_instrumented', False):
+        return
+    orig_feed, orig_iter, orig_reset = U.feed, U.__iter__, U.reset
+
+    class _Counting(object):
+        def __init__(self, u, it):
+            self.u, self.it = u, it
+
+        def __iter__(self):
+            return self
+
+        def __next__(self):
+            item = next(self.it)
+            try:
+                self.u.__dict__['_verif_consumed'] = self.u.__dict__.get('_verif_consumed', 0) + 5 + len(item[1])
+            except Exception:
+                pass
+            return item
+
+    def feed(self, data):
+        self.__dict__['_verif_fed'] = self.__dict__.get('_verif_fed', 0) + len(data)
+        return orig_feed(self, data)
+
+    def __iter__(self):
+        it = orig_iter(self)
+        if it is self:
+            # the class is its own iterator: step it through the class's own __next__
+            nxt = type(self).__next__
+            outer = self
+
+            class _Self(object):
+                def __iter__(s):
+                    return s
+
+                def __next__(s):
+                    return nxt(outer)
+            it = _Self()
+        return _Counting(self, it)
+
+    def reset(self):
+        self.__dict__['_verif_fed'] = 0
+        self.__dict__['_verif_consumed'] = 0
+        return orig_reset(self)
+
+    U.feed, U.__iter__, U.reset = feed, __iter__, reset
+    U._verif_instrumented = True
+
+
+def unconsumed(u):
+    """bytes fed to this decoder that are not part of a frame it has yielded"""
+    return u.__dict__.get('_verif_fed', 0) - u.__dict__.get('_verif_consumed', 0)
+
+
+def held_buffers(u):
+    return [v for k, v in vars(u).items() if isinstance(v, (bytes, bytearray, memoryview)) and not k.startswith('_verif')]
+
+
+def footprint(u):
+    """bytes the decoder really holds (all its bytes-like attributes)"""
+    return sum(len(v) for v in held_buffers(u))
+
+
+_instrument_unpacker()
